@@ -63,10 +63,13 @@ QAP_INSTANCES = _flat(QAP_CLASSES)
 # as in instgen/experiment.py every template comes with both slack variants
 INSTGEN_INSTANCES = [("beng01", 0.25), ("beng01", 0.125),
                      ("cl01_020_01", 0.25), ("cl01_020_01", 0.125),
-                     ("cl02_020_01", 0.25), ("beng02", 0.125)]
+                     ("cl02_020_01", 0.25), ("beng02", 0.125),
+                     # lower bound above the area bound
+                     ("cl05_020_01", 0.25), ("cl09_020_02", 0.25)]
 DC_INSTANCES = [("stuart_landau", "linear"), ("lorenz", "linear"),
-                ("stuart_landau", "quadratic")]
-DCS_INSTANCES = ["stuart_landau", "lorenz"]
+                ("stuart_landau", "quadratic"),
+                ("three_coupled_oscillators", "ann0")]
+DCS_INSTANCES = ["stuart_landau", "lorenz", "three_coupled_oscillators"]
 INSTGEN_INNER_FES = 40
 INSTGEN_INNER_RUNS = 1
 _EXAMPLES: dict = {}
@@ -117,16 +120,16 @@ def make_instance(inst_id: str):
 _DC_CACHE: dict = {}
 
 
-def _dc_instance(sysname: str, ctrl: str):
+def _dc_system(sysname: str):
     import numpy as np
-    from moptipyapps.dynamic_control.instance import Instance
     from moptipyapps.dynamic_control.system import System
-    key = (sysname, ctrl)
+    key = ("sys", sysname)
     if key not in _DC_CACHE:
         smod = importlib.import_module(
             f"moptipyapps.dynamic_control.systems.{sysname}")
-        base = getattr(smod, {"stuart_landau": "STUART_LANDAU_4",
-                              "lorenz": "LORENZ_4"}[sysname])
+        base = getattr(smod, {
+            "stuart_landau": "STUART_LANDAU_4", "lorenz": "LORENZ_4",
+            "three_coupled_oscillators": "THREE_COUPLED_OSCILLATORS"}[sysname])
         # same equations and starting states, shorter horizons: one FE ~30 ms
         system = System(base.name, base.state_dims, base.control_dims,
                         base.state_dim_mod, base.state_dims_in_j, base.gamma,
@@ -134,11 +137,19 @@ def _dc_instance(sysname: str, ctrl: str):
                         np.array(base.training_starting_states),
                         100, 5.0, 60, 4.0, (0,))
         system.equations = base.equations
-        cmod = importlib.import_module(
-            f"moptipyapps.dynamic_control.controllers.{ctrl}")
-        _DC_CACHE[key] = (system, getattr(cmod, ctrl))
-    system, cfun = _DC_CACHE[key]
-    return Instance(system, cfun(system))
+        _DC_CACHE[key] = system
+    return _DC_CACHE[key]
+
+
+def _dc_instance(sysname: str, ctrl: str):
+    from moptipyapps.dynamic_control.instance import Instance
+    system = _dc_system(sysname)
+    if ctrl == "ann0":     # the smallest generated network (any dimension)
+        from moptipyapps.dynamic_control.controllers.ann import anns
+        return Instance(system, anns(system)[0])
+    cmod = importlib.import_module(
+        f"moptipyapps.dynamic_control.controllers.{ctrl}")
+    return Instance(system, getattr(cmod, ctrl)(system))
 
 
 def _dcs_instance(sysname: str):
@@ -150,7 +161,7 @@ def _dcs_instance(sysname: str):
     from moptipyapps.dynamic_control.system import System
     key = ("dcs", sysname)
     if key not in _DC_CACHE:
-        base = _dc_instance(sysname, "linear").system
+        base = _dc_system(sysname)
         # an even shorter horizon: learned ANN models can be stiff, and the
         # cost of a stiff simulation grows with the simulated time
         system = System(base.name, base.state_dims, base.control_dims,
